@@ -436,6 +436,23 @@ def storeAligned (rowCos colCos : V3) (psRow psCol : Rat) (srcHint : Option Rat)
     | none => .error .index
     | some pos => .ok { rowCos := rowCos, colCos := colCos, psRow := psRow, psCol := psCol, hint := hint, pos := pos }
 
+/-! ## writing: tiled segmentation from a volume in SLIDE coordinates -/
+
+/-- what the read side sees of a tiled image: total-pixel-matrix origin, ImageOrientationSlide, pixel measures -/
+structure TiledAttrs where
+  origin : V3
+  rowCos : V3
+  colCos : V3
+  psRow : Rat
+  psCol : Rat
+  sbs : Option Rat
+deriving Repr
+
+/-- `Segmentation(pixel_array=Volume (1, R, C), tile_pixel_array=True)`: the single plane position becomes the
+TotalPixelMatrixOriginSequence, orientation and measures are the volume's -/
+def storeTiled (g : Geom) : TiledAttrs :=
+  { origin := planePosition g 0, rowCos := g.d2, colCos := g.d1, psRow := g.s1, psCol := g.s2, sbs := some g.s0 }
+
 /-- `get_volume_geometry()` of a stacked image: the default request of `_get_stacked_volume_geometry` -/
 def volumeGeometryStack (st : Stack) (rows cols : Int) (allowMissing : Bool) : Except ErrKind StackGeom :=
   stackedGeometry st rows cols allowMissing none none false
